@@ -29,6 +29,9 @@ GoodTag(e) ==
   /\ (base # Und => (t = base \/ (Len(t) > Len(base) /\ SubSeq(t, 1, Len(base) + 1) = base \o <<45>>)))
   /\ t \in DOMAIN F /\ T(F[t]) = t                                   \* tag -> language -> tag is the identity
   /\ (t # Und => F[t] <= c)                                          \* a table tag maps to its own (first) code
+  \* "the bare language tag for an unknown sublanguage": every table tag maps to its OWN code, so a regional tag
+  \* has exactly one code; any other code with that language has a sublanguage the table does not know
+  /\ ((t # Und /\ t # base) => F[t] = c)
 GoodFrom(e) ==
   LET t == e.tag  c == e.c  lp == LangPart(t) IN
   IF t \in AllTags /\ t # Und THEN T(c) = t
